@@ -50,7 +50,7 @@ def cases(tier):
     # (zero turnout factor), its predicted turnout is 0 and its raw margin 0/0
     zs = copy.deepcopy(BS.margin_units(10, 1, 0, states=("AA",))) + [
         P.U("BBz%d" % i, "strange", state="BB", county="BBc1", cls="k1", pev=100, base=dict(turnout=900 + i, dem=400, gop=300),
-            res=dict(turnout=0, dem=0, gop=0)) for i in range(2)]
+            zero_votes=True) for i in range(2)]
     for cb in range(3):
         for sb in range(2):
             out.append(dict(name="zero_votes_contest_%s%d" % (CALL[cb], sb), states=["AA", "BB"], fixed={"AA": (0, 0), "BB": (cb, sb)},
